@@ -423,12 +423,18 @@ def grid_task(fname, datatype, extra=None):
         stubs = dict(window_stub(dom))
         stubs.update(corr_stubs(dom))
         stubs.update(burg_stub(dom))
+        if fname == "pmtm":
+            from .C19 import dpss_contract
+            stubs.update(dpss_contract(dom, 2))
+            dom.while_plan = 1
         I = tc.interp(stubs=stubs)
         hints = {"fn": fname, "datatype": datatype}
         tc.native = ("grid", hints)
         hints.update(extra or {})
 
         def thunk(I):
+            if fname == "pmtm":
+                dom.while_plan = 1
             N = dom.input_int("N")
             n1 = dom.input_int("NFFT")
             c = dom.input_int("c")
@@ -475,6 +481,20 @@ def grid_task(fname, datatype, extra=None):
                 st["r1"] = I.call_qual("spectrum.minvar.minvar", x, m, Fraction(1), n1)[0]
                 st["r2"] = I.call_qual("spectrum.minvar.minvar", x, m, Fraction(1), n2)[0]
                 st["spec"] = lambda n: spec_minvar(I, dom, x, m, Fraction(1), n)[0]
+            elif fname == "pmtm":
+                I.assume(V.s_cmp(">=", n1, N))
+                NW = dom.input_real("NW")
+                m_ = extra["method"]
+                a1 = I.call_qual("spectrum.mtm.pmtm", x, NW, 2, n1, None, None, m_)
+                a2 = I.call_qual("spectrum.mtm.pmtm", x, NW, 2, n2, None, None, m_)
+                st["mt"] = (a1, a2)
+                # eigenspectrum of the first taper / adaptive weight of the first taper, as 1-D arrays over frequency
+                if m_ == "adapt":
+                    st["r1"] = Arr(n1, fn=lambda f: a1[1].at(f, 0), dtype="float")
+                    st["r2"] = Arr(n2, fn=lambda f: a2[1].at(f, 0), dtype="float")
+                else:
+                    st["r1"] = Arr(n1, fn=lambda f: a1[0].at(1, f), dtype="complex")
+                    st["r2"] = Arr(n2, fn=lambda f: a2[0].at(1, f), dtype="complex")
             elif fname == "eigen":
                 P_, NSIG, method = extra["P"], extra["NSIG"], extra["method"]
                 I.assume(V.s_cmp(">=", N, 2 * P_))
@@ -529,4 +549,4 @@ def grid_task(fname, datatype, extra=None):
     tag = ("." + ".".join("%s%s" % (k, v) for k, v in sorted((extra or {}).items()))) if extra else ""
     return Task("grid.%s.%s%s" % (fname, datatype, tag), run, functions=["spectrum." + {
         "arma2psd": "arma.arma2psd", "speriodogram": "periodogram.speriodogram", "CORRELOGRAMPSD": "correlog.CORRELOGRAMPSD",
-        "minvar": "minvar.minvar", "eigen": "eigenfre.eigen"}[fname]])
+        "minvar": "minvar.minvar", "eigen": "eigenfre.eigen", "pmtm": "mtm.pmtm"}[fname]])
